@@ -447,6 +447,22 @@ func ruleSGNull(c *Ctx) {
 				c.Check(t != "union", key, P.pos(cs.Instr.Pos()), "literal non-union argument ("+t+")", "a union literal is wrapped in a nullable union")
 				continue
 			}
+			// inside a registration function whose registered schemas were all obtained as folded values (and
+			// checked above, branch by branch): what the helper returns there is what is registered
+			if nReg, nFolded := 0, 0; true {
+				for _, r := range findRegistrations(P) {
+					if r.In == fn && r.hasSchema() {
+						nReg++
+						if r.Folded != nil {
+							nFolded++
+						}
+					}
+				}
+				if nReg > 0 && nReg == nFolded {
+					c.OK(key, P.pos(cs.Instr.Pos()), fmt.Sprintf("in %s the %d registered schemas were obtained as folded values and each was checked for a nested union", fn.Name(), nReg))
+					continue
+				}
+			}
 			// a schema literal whose type name is a string parameter of an unexported helper: decided at each of the
 			// helper's call sites, which must pass a constant other than "union"
 			if ld, isL := arg.(*ssa.UnOp); isL && ld.Op == token.MUL && !token.IsExported(fn.Name()) && fn.Parent() == nil {
